@@ -16,6 +16,7 @@ type RunCase struct {
 	Src   string `json:"src"`
 	Text  string `json:"text"`
 	ASCII bool   `json:"ascii"`
+	Limit int64  `json:"limit,omitempty"` // VM step limit (0 = the check's default)
 }
 
 const vmLimitInvariant = 30_000
@@ -84,7 +85,11 @@ func checkInvariantCase(c RunCase) (sig, what string, discard bool, ms engine.Ma
 	if err != nil {
 		return "compile-error", "generated program does not compile: " + firstLine(err.Error()), false, nil
 	}
-	res := RunSafe(v, c.Text, vmLimitInvariant)
+	limit := int64(vmLimitInvariant)
+	if c.Limit > 0 {
+		limit = c.Limit
+	}
+	res := RunSafe(v, c.Text, limit)
 	if res.OverBudget {
 		return "", "", true, nil
 	}
